@@ -31,8 +31,9 @@ def leaves(t):
 
 
 def _tagged(t, base):
-    """base, or a change-tag wrapper of base (Diff.unknown_change(base) / Diff.no_change(base))"""
-    return t == base or (is_call(t, "unknown_change", "no_change") and len(t[2]) == 1 and t[2][0] == base)
+    """base, or base conservatively tagged (Diff.unknown_change(base)).  Diff.no_change(base) is NOT accepted: the closure's stored
+    arguments need not equal the ones the trace was made with, and a NoChange tag lets callees skip re-scoring (C08)"""
+    return t == base or (is_call(t, "unknown_change") and len(t[2]) == 1 and t[2][0] == base)
 
 
 def _full(t, argname):
